@@ -132,3 +132,87 @@ def gen_columns():
     core.GEN.mkdir(parents=True, exist_ok=True)
     (core.GEN / "Gen_columns.v").write_text("\n".join(out) + "\n")
     return {"result_fields": len(dataclasses.fields(FEEMSResult)), "message_fields": len(rp.FeemsResult.DESCRIPTOR.fields)}
+
+
+# ---- C13: enum numbering on the two sides of the system description -------------------------------
+
+_ENUM_PAIRS = [("TypeFuel", "FuelType"), ("FuelOrigin", "FuelOrigin"), ("EngineCycleType", "EngineCycleType"),
+               ("EmissionType", "EmissionType"), ("TypeComponent", "ComponentType"), ("TypePower", "PowerType")]
+
+
+def _feems_enums():
+    from feems.fuel import FuelOrigin, TypeFuel
+    from feems.types_for_feems import EmissionType, EngineCycleType, NOxCalculationMethod, TypeComponent, TypePower
+    d = {e.__name__: [(m.name, int(m.value)) for m in e] for e in (TypeFuel, FuelOrigin, EngineCycleType, EmissionType, TypeComponent, TypePower)}
+    return d, [m.name for m in NOxCalculationMethod]
+
+
+def _pb_enums():
+    import MachSysS.system_structure_pb2 as proto
+    found = {}
+
+    def walk(container):
+        for e in container.enum_types_by_name.values() if hasattr(container, "enum_types_by_name") else []:
+            found[e.name] = [(v.name, int(v.number)) for v in e.values]
+        for m in (container.message_types_by_name.values() if hasattr(container, "message_types_by_name") else container.nested_types):
+            for e in m.enum_types:
+                found[e.name] = [(v.name, int(v.number)) for v in e.values]
+            walk(m)
+    walk(proto.DESCRIPTOR)
+    return found
+
+
+def _proto_text_enums():
+    import re
+    text = (core.REPO / "machinery-system-structure" / "proto" / "system_structure.proto").read_text()
+    text = re.sub(r"//[^\n]*", "", text)
+    out = {}
+    for m in re.finditer(r"enum\s+(\w+)\s*\{([^}]*)\}", text):
+        out[m.group(1)] = [(a, int(b)) for a, b in re.findall(r"(\w+)\s*=\s*(\d+)\s*;", m.group(2))]
+    return out
+
+
+def gen_enums():
+    fe, nox = _feems_enums()
+    pb, tx = _pb_enums(), _proto_text_enums()
+    pl = lambda l: "[" + "; ".join(f"({core.coq_string(n)}, {v}%nat)" for n, v in l) + "]"
+    out = ["(* GENERATED on every run: FEEMS enums as imported from /repo, protobuf enums from the compiled descriptors the",
+           "   converters import and from the text of system_structure.proto -- do not edit *)",
+           "From Coq Require Import String List.", "Import ListNotations.", "Open Scope string_scope.", ""]
+    for f, p in _ENUM_PAIRS:
+        out.append(f"Definition feems_{f} : list (string * nat) := {pl(fe[f])}.")
+        out.append(f"Definition pb_{p} : list (string * nat) := {pl(pb.get(p, []))}.")
+        out.append(f"Definition text_{p} : list (string * nat) := {pl(tx.get(p, []))}.")
+    out.append("Definition feems_nox_names : list string := [" + "; ".join(core.coq_string(n) for n in nox) + "].")
+    out.append(f"Definition pb_NOx : list (string * nat) := {pl(pb.get('NOxCalculationMethod', []))}.")
+    out.append(f"Definition text_NOx : list (string * nat) := {pl(tx.get('NOxCalculationMethod', []))}.")
+    core.GEN.mkdir(parents=True, exist_ok=True)
+    (core.GEN / "Gen_enums.v").write_text("\n".join(out) + "\n")
+    return {"enums": {f: len(fe[f]) for f, _ in _ENUM_PAIRS}, "nox_names": nox}
+
+
+def enum_mismatches():
+    """(enum, member, why) for every member whose number or name differs between the two sides"""
+    fe, nox = _feems_enums()
+    pb, tx = _pb_enums(), _proto_text_enums()
+    bad = []
+    none = lambda n: n.startswith("NONE")
+    for f, p in _ENUM_PAIRS:
+        bynum = {v: n for n, v in pb.get(p, [])}
+        for n, v in fe[f]:
+            if f == "TypePower" and v > 4:
+                continue
+            if v not in bynum:
+                bad.append((f, n, f"{f}.{n} = {v} has no member with that number in the protobuf enum {p}: the encoder writes a number the decoder cannot name"))
+            elif bynum[v] != n and not (none(n) and none(bynum[v])):
+                bad.append((f, n, f"{f}.{n} = {v} is {p}.{bynum[v]} in the protobuf description: the value travels by number, so {n} comes back as {bynum[v]}"))
+        if pb.get(p) != tx.get(p):
+            bad.append((p, "*", f"the compiled descriptors of {p} differ from system_structure.proto"))
+    pbn = [n for n, _ in pb.get("NOxCalculationMethod", [])]
+    for n in nox:
+        if n not in pbn:
+            bad.append(("NOxCalculationMethod", n, f"NOx method {n} has no protobuf member of that name: the encoder raises for it"))
+    for n in pbn:
+        if n not in nox:
+            bad.append(("NOxCalculationMethod", n, f"protobuf NOx method {n} has no FEEMS member of that name: the decoder raises for it"))
+    return bad
